@@ -830,6 +830,38 @@ def n11(led, rid, ctx):
                           "differ, and a variable that is already fixed is selected (the proposed decision is "
                           "already decided)" % show(idx)[:80])
     led.floor(rid, "indexings of ProportionalDomainSize::variables", n, 2)
+    # on_backtrack re-establishes the identity map over all variables: both compacted vectors are
+    # cleared and refilled from a range over 0..variables.len()
+    ob = [f for f in fns if f.name == "on_backtrack"]
+    if not ob:
+        raise AnchorMissing("ProportionalDomainSize::on_backtrack")
+    f = ob[0]
+    R = resolver(f)
+    cleared = set()
+    for c in f.calls:
+        if c.name in ("clear", "truncate") and c.args:
+            fl = peel(R.operand(c.args[0]), calls=None).fields()
+            if fl:
+                cleared.add(list(fl)[-1])
+    full = False
+    from ..flow import aggregates as _aggs
+    for bb, i, st in _aggs(f, None):
+        e = R.rvalue(st["rv"])
+        if e.k == "agg" and (e.a or "").split("::")[-1] == "Range":
+            lo = peel(e.c[0], calls=None)
+            hi_fields = [q for x in e.c[1].walk() for q in (x.fields() if x.k == "proj" else [])]
+            if lo.k == "const" and lo.a == 0 and "variables" in hi_fields and \
+                    any(c.name == "len" for c in e.c[1].calls()):
+                full = True
+    pushes = {list(peel(R.operand(c.args[0]), calls=None).fields())[-1] for c in f.calls
+              if c.name == "push" and c.args and peel(R.operand(c.args[0]), calls=None).fields()}
+    ok = {"domain_sizes", "weights_idx_to_variables"} <= cleared and full and \
+        {"domain_sizes", "weights_idx_to_variables"} <= pushes
+    led.check(ok, rid, "on_backtrack:rebuilds-identity-map", f.span, "clear both, refill from 0..variables.len()",
+              "ProportionalDomainSize::on_backtrack does not rebuild the weight→variable map from scratch "
+              "(cleared: %s, full range: %s): after swap_remove the surviving positions are not a prefix, so "
+              "variables are duplicated or lost and the selector proposes nothing while a variable is unfixed"
+              % (sorted(cleared), full))
 
 
 def run(ctx, led):
